@@ -18,6 +18,6 @@ PROPS = {"C18": dict(
     bins=["cmd/partial-aftersun"],
     budget={"quick": 900, "thorough": 5400},
     units=[
-        rapid("aftersun", "cmd/partial-aftersun", "^TestVerifC18Synthetic$", 600, 4000, fallback_tag="verif_binonly"),
-        rapid("aftersun", "cmd/partial-aftersun", "^TestVerifC18Real$", 60, 150, fallback_tag="verif_binonly"),
+        rapid("aftersun", "cmd/partial-aftersun", "^TestVerifC18Synthetic$", 600, 2500, fallback_tag="verif_binonly"),
+        rapid("aftersun", "cmd/partial-aftersun", "^TestVerifC18Real$", 60, 100, fallback_tag="verif_binonly"),
     ])}
